@@ -20,7 +20,7 @@ func init() {
 		Explanation: "Decides structural necessary conditions of crash/fault recovery of the lifecyclers: (R1) the tokens file is replaced atomically: all writes go to a freshly truncated '<path>.tmp', the only operation creating the final path is os.Rename(tmp, path), reached only when marshal, write and close all succeeded; no other file-writing call exists in package ring; a failed load never aborts start-up; " +
 			"(R2) when the own entry is missing at a heartbeat the lifecycler re-registers with its remembered tokens and state, and when the entry exists the heartbeat keeps the tokens recorded in the ring (it never overwrites them with the in-memory copy); (R3) on restart with an existing entry the local tokens/state/registration time are taken from the ring entry. " +
 			"(R4) every request to the token generator asks for target−len(held) tokens and appends the result to the held list, so tokens recorded in the ring or the tokens file survive a restart or a top-up unchanged; (R5) Lifecycler.changeState sets the local state once, to the requested state, before the store write and never rolls it back, so a rejected write is re-published by a later heartbeat. " +
-			" Also: (R6) restart from a tokens file goes ACTIVE only with a complete token set; (R7) the wait for permission to join fails only with the caller's own context error (store faults are retried or ignored).NOT decided: behaviour under a crash between any two writes (crash points), fault windows, reaching ACTIVE with the full token count. Registration-time handling is decided under C08.R3.",
+			" Also: (R6) restart from a tokens file goes ACTIVE only with a complete token set; (R7) the wait for permission to join fails only with the caller's own context error (store faults are retried or ignored); (R8) the tokens file is written whenever tokens are set and a path is configured, whatever the state (tokens obtained while JOINING are the ones a restart must find); (R9) a failed token pick ends the lifecycler: autoJoin may have changed local state before its store write failed, so the loop must not carry on with it. NOT decided: behaviour under a crash between any two writes (crash points), fault windows, reaching ACTIVE with the full token count. Registration-time handling is decided under C08.R3.",
 	}
 }
 
